@@ -625,6 +625,8 @@ public:
 
 	void Clear() noexcept
 	{
+		if (mNodeParams == nullptr)
+			return;
 		pvDestroy();
 		mRootNode = nullptr;
 		mNodeParams = nullptr;
